@@ -283,7 +283,7 @@ func classifyC13(r rec) string {
 // RunC13 executes the C13 check.
 func RunC13(c *core.Ctx) {
 	c.SetLevel("model_checking")
-	c.Assume("index keys and ids contain no NUL byte (the documented entry layout); prefixes may")
+	c.Assume("ids contain no NUL byte; index keys contain none either, except in the composite-key histories (keys <a> NUL <b> with exactly one NUL, judged only for prefixes that contain the NUL, where the order of the entry bytes and the order by (key, id) agree)")
 	core.ModelMustHold(c, core.ModelCheck(c, "MCIndex", "MCIndex.cfg", core.TLCOpts{}), "MCIndex")
 	rng := rand.New(rand.NewSource(c.Seed))
 	var recs []interface{}
@@ -351,6 +351,35 @@ func RunC13(c *core.Ctx) {
 		q := randQuery(rng)
 		got, _ := w.query(q)
 		recs = append(recs, rec{"kind": "query", "entries": w.entries(), "q": q.rec(), "got": got, "dbg": "after the held task was released and Flush returned"})
+		w.close()
+	}
+	// composite keys: index keys of the form <a> NUL <b> next to plain keys equal to some <a>, queried with
+	// prefixes that contain the NUL byte. The raw prefix scan also meets entries of the plain keys whose id
+	// starts like <b> (they match only because the prefix runs past the key into the id): they are no hits.
+	for h := 0; h < c.Pick(6, 40); h++ {
+		w, err := newC13World([]string{"", "pfx."}[h%2])
+		if err != nil {
+			break
+		}
+		ckeys := []string{"se\x00a", "se\x00ab", "se\x00b", "no\x00a", "se", "se", "no", "dk"}
+		cids := []string{"a", "a1", "ab", "b", "x1", "x2", "x3", "x4"}
+		for step := 0; step < 14; step++ {
+			id := cids[rng.Intn(len(cids))]
+			k := ckeys[rng.Intn(len(ckeys))]
+			w.mutate(id, &k, rng.Intn(8) == 0, step)
+		}
+		w.qs.Flush()
+		ents := w.entries()
+		for k := 0; k < c.Pick(30, 80); k++ {
+			q := iquery{prefix: []string{"se\x00", "se\x00a", "se\x00ab", "no\x00", "se\x00c", "se\x00b"}[rng.Intn(6)], filter: []string{"none", "none", "odd"}[rng.Intn(3)],
+				offset: rng.Intn(5), limit: []int{-1, -1, 0, 1, 2, 5}[rng.Intn(6)], reverse: rng.Intn(2) == 0}
+			got, err := w.query(q)
+			if err != nil {
+				c.Violate(core.Violation{Signature: map[string]string{"engine": "c13", "kind": "query-error"}, Text: fmt.Sprintf("query %+v failed: %v", q, err), Replay: q.rec()})
+				continue
+			}
+			recs = append(recs, rec{"kind": "query", "entries": ents, "q": q.rec(), "got": got, "dbg": fmt.Sprintf("composite-key history %d", h)})
+		}
 		w.close()
 	}
 	// a backlog of index updates longer than the index task queue: the indexer is held while one writer
